@@ -482,6 +482,9 @@ func genProject(r *rng.R, nPerturb int) (pProject, []string) {
 	applied := []string{}
 	// a custom error type is as good as `error`
 	for ci := range p.Controllers {
+		if p.Controllers[ci].Pkg != "ctl" {
+			continue // MyErr lives in package ctl
+		}
 		for mi := range p.Controllers[ci].Methods {
 			m := &p.Controllers[ci].Methods[mi]
 			if n := len(m.Results); n > 0 && m.Results[n-1] == "error" && r.Chance(1, 10) {
